@@ -11,12 +11,12 @@
    "mean = true mean" is "sum = sum of the durations"; float32 rounding of the
    means is outside these theorems (it is checked with a tolerance by the
    harness and the monitor). *)
-From Coq Require Import List ZArith Bool.
+From Coq Require Import List ZArith Bool Uint63.
 From Verif Require Import C15.Model C15.Spec C15.Proofs C15.Witness C15.Faults C15.FaultsProofs.
 From Verif Require Import C15.Keys C15.KeysProofs.
 From Verif Require Import C15.Utf8 C15.Utf8Proofs C15.Entry C15.EntryProofs.
 From Verif Require Import C15.Notify C15.NotifyProofs.
-From Verif Require Import C15.Settle C15.SettleProofs.
+From Verif Require Import C15.Settle C15.SettleProofs C15.SettleCalls C15.SettleCallsProofs.
 Import ListNotations.
 Open Scope Z_scope.
 
@@ -1019,9 +1019,11 @@ Proof. vm_compute. split; reflexivity. Qed.
    premise is false for the real tree ([C15_tree_that_moves_on_reinsert_is_not_settled]
    shows what a failing third premise does).  What suite "settle" demands of
    the code is the case [olds = []]: [C15_grouping_settled_without_rekeying].
-   No suite evaluates [flush_tree] / [settled]; the suite compares the number
-   of leading inserts ([pre_normalised]) and an observed count of unsettled
-   look-ups. *)
+   The suite compares the number of leading inserts ([pre_normalised]) and an
+   observed count of unsettled look-ups, and (Extension 3, below:
+   [C15_accepted_settle_case_is_settled]) evaluates [flush_tree] / [settled]
+   over the recorded end-of-flush oracle against the recorded tree calls of
+   every flush in which the tree reported no convergence. *)
 Theorem C15_grouping_settled : C15_grouping_settled_with false.
 Proof. exact grouping_settled_head. Qed.
 Print Assumptions C15_grouping_settled.
@@ -1102,6 +1104,98 @@ Proof.
   split; [ intros H; specialize (H [[49]] [49] (or_introl eq_refl)); cbn in H; discriminate H | ].
   split; [ reflexivity | ].
   vm_compute. intros [ H _ ]. discriminate H.
+Qed.
+
+(* Suite "settle", Extension 3 (SettleCalls.v): for every flush WITHOUT a
+   re-keying pass the harness records the calls the real code made on the URL
+   tree one by one (InsertWithConvergenceIndication u / Insert u / Lookup u with
+   the key it got) and, for every URL of those calls, the key the real tree
+   gives once discovery.Run has returned (the recorded oracle).  [run_settle_calls]
+   evaluates [flush_tree] and its call-by-call reading [flush_calls] on the same
+   batch (URLs and consumer tags recomputed from the records as logged) over the
+   ORACLE TREE (look-up = the recorded oracle, no insert moves it) and accepts
+   the flush when (a) the recorded calls are exactly the model's — kinds, URLs,
+   order and every look-up answer — and (b) [settled] holds of the keys the real
+   look-ups returned.  An accepted case therefore satisfies, flush by flush, the
+   conclusion of [C15_grouping_settled_without_rekeying] for the recorded
+   oracle, and the real code grouped every record under the key its URL has at
+   the end of the flush.  (Stated over the decoded case: [run_settle_calls k] is
+   [first_bad_drun runs 0] for [decode_settle k = Some runs], by definition; the
+   wire-level form is Lemma [accepted_settle_case] — the decoder works on
+   primitive 63-bit integers, which Print Assumptions lists.)  The premises of
+   that theorem hold of the oracle tree
+   trivially ([oracle_tree_premises]); what the suite adds is that the real
+   tree, seen through its calls, behaved like the oracle tree in that flush.
+   Still not covered: flushes with a re-keying pass (finding F-C15), and the
+   real urltree itself is not modelled. *)
+Theorem C15_accepted_settle_case_is_settled : forall runs : list (list dflush),
+  first_bad_drun runs 0 = None ->
+  forall r, In r runs -> forall f, In f r -> df_rekeyed f = false ->
+    let urls := df_urls f in
+    let urlsC := df_urlsC f in
+    let r := flush_tree otree oinsert olookup false (df_empty f) (df_oracle f) [] urls urlsC in
+    incl urlsC urls /\
+    df_calls f = flush_calls otree oinsert olookup false (df_empty f) (df_oracle f) [] urls urlsC /\
+    (df_labE f = snd (fst r) /\ df_labC f = snd r) /\
+    settled otree olookup urls urlsC r /\
+    settled otree olookup urls urlsC (fst (fst r), df_labE f, df_labC f).
+Proof.
+  intros runs H r Hr f Hf Hrk.
+  apply (accepted_flush_settled C15_grouping_settled_without_rekeying); [ | exact Hrk ].
+  exact (first_bad_drun_none _ _ H r Hr f Hf).
+Qed.
+Print Assumptions C15_accepted_settle_case_is_settled.
+
+(* [flush_calls] is [flush_tree] read call by call, for every tree: the keys its
+   look-ups return are the labels of [flush_tree] (after those of the re-keying
+   pass), and the URLs it hands to the tree, folded into the start tree, give
+   the final tree of [flush_tree] *)
+Theorem C15_flush_calls_read_flush_tree :
+  forall (tree : Type) (insert : tree -> str -> tree) (lookup : tree -> str -> str)
+         (sk e : bool) (t : tree) (olds urls urlsC : list str),
+    let r := flush_tree tree insert lookup sk e t olds urls urlsC in
+    let cs := flush_calls tree insert lookup sk e t olds urls urlsC in
+    keys_of cs = snd (normalize_pass tree insert lookup
+                        (normalize_tree tree insert t (pre_normalised sk e urls)) olds)
+                 ++ snd (fst r) ++ snd r /\
+    inserted_of cs = pre_normalised sk e urls ++ olds ++ urls ++ urlsC /\
+    fst (fst r) = fold_left insert (inserted_of cs) t.
+Proof.
+  intros tree insert lookup sk e t olds urls urlsC. cbn zeta.
+  split; [ apply flush_calls_keys | ]. split; [ apply flush_calls_inserted | apply flush_tree_final ].
+Qed.
+Print Assumptions C15_flush_calls_read_flush_tree.
+
+(* A case of the suite in its wire format: records GET a (no tag), b (tag t)
+   and an internal one; one flush on the empty aggregation; the tree was given a
+   and b first, then grouped a, b by endpoint and b, a by consumer (tag t met
+   first), every look-up answering p, which is what it answers when the flush
+   ends: accepted.  The same flush with the first look-up answering the raw URL
+   a (grouped before the tree had settled), with the leading inserts missing
+   (seeded change C15-9), or with a consumer order that is not the one seen:
+   rejected. *)
+Example C15_settle_case_accepted_and_rejected :
+  let head := [6; 1;97; 1;98; 1;112; 0; 3;78;47;65; 1;116;  3; 0;3;0; 1;5;0; 0;5;1;  1; 1]%uint63 in
+  let oracle_hint h := ([2; 2097152; 2097153; 2] ++ h)%uint63 in
+  let good := (head ++ [3;1;0;2;0; 10; 0;4; 1;8388610;5;8388614; 5;8388614;1;8388610]
+                    ++ oracle_hint [5; 4])%uint63 in
+  let early := (head ++ [3;1;0;2;0; 10; 0;4; 1;2;5;8388614; 5;8388614;1;8388610]
+                     ++ oracle_hint [5; 4])%uint63 in
+  let skipped := (head ++ [3;1;0;0;0; 8; 1;8388610;5;8388614; 5;8388614;1;8388610]
+                       ++ oracle_hint [5; 4])%uint63 in
+  let order := (head ++ [3;1;0;2;0; 10; 0;4; 1;8388610;5;8388614; 5;8388614;1;8388610]
+                     ++ oracle_hint [4; 5])%uint63 in
+  run_settle_calls good = None /\
+  (exists f, decode_settle good = Some [[f]] /\ df_rekeyed f = false /\
+             df_urls f = [[97]; [98]] /\ df_urlsC f = [[98]; [97]] /\
+             df_labE f = [[112]; [112]] /\ df_labC f = [[112]; [112]]) /\
+  run_settle_calls early <> None /\
+  run_settle_calls skipped <> None /\
+  run_settle_calls order <> None.
+Proof.
+  vm_compute. split; [ reflexivity | ]. split.
+  - eexists. repeat split; reflexivity.
+  - repeat split; discriminate.
 Qed.
 
 (* Status codes are used as logged: a record with HAProxy's placeholder -1 (or
